@@ -65,7 +65,7 @@ def shards(tier):
     trip = [trip[(i * 50 + i) % len(trip)] for i in range(6 if tier == "quick" else 40)]
     for i, v in enumerate(trip):
         out.append({"v": list(v), "vk": "fi"[i % 2], "k": k, "part": "idx"}); k += 1
-    for akind in "bifO":
+    for akind in ["b", "i", "f", "O", "f4", "i4", "i1", "u1"]:
         out.append({"part": "cast", "akind": akind})
     for v in ([[("i", "shuf"), ("O", "inc")], [("f", "dec"), ("i", "shuf"), ("O", "shuf")]]):
         out.append({"v": v, "vk": "f", "k": 1, "part": "ndmask"})
@@ -135,7 +135,24 @@ def cases(sh, tier):
                 yield {"a": so, "ix": ixs, "sp": sp, "mode": mode, "rhs": rhs, "inplace": (c // 3) % 2 == 0}
 
 
-CAST_VALUES = {"bool": True, "int": 7, "float": 2.5, "nan": float("nan"), "str": "q", "intarr": [7, 8], "floatarr": [2.5, float("nan")]}
+CAST_VALUES = {"bool": True, "int": 7, "float": 2.5, "nan": float("nan"), "str": "q", "intarr": [7, 8], "floatarr": [2.5, float("nan")],
+               # values that the narrow dtypes (float32, int32, int8, uint8) cannot hold: the array must be widened WITHIN the kind
+               "big": 2 ** 40, "i300": 300, "neg": -1, "huge": 1e300, "tenth": 0.1, "odd24": 16777217, "bigarr": [7, 2 ** 40], "tentharr": [0.1, 2.5]}
+CAST_KIND = {"bool": "b", "int": "i", "float": "f", "nan": "f", "str": "U", "intarr": "i", "floatarr": "f",
+             "big": "i", "i300": "i", "neg": "i", "huge": "f", "tenth": "f", "odd24": "i", "bigarr": "i", "tentharr": "f"}
+
+
+def _fits(v, dt):
+    """are the assigned values exactly representable in dtype dt? (oracle side: round trip through dt)"""
+    arr = np.asarray(v)
+    if arr.dtype.kind not in "iuf" or dt.kind not in "iuf":
+        return True
+    with np.errstate(all="ignore"):
+        try:
+            back = arr.astype(dt).astype(arr.dtype if arr.dtype.kind == "f" else object)
+        except (OverflowError, ValueError):
+            return False
+    return all((x == y) or (x != x and y != y) for x, y in zip(np.ravel(back).tolist(), np.ravel(arr).tolist()))
 
 
 def _cast_cases(akind):
@@ -315,8 +332,8 @@ def _check_cast(case):
     before = common.snap(a)
     nonval = _nonvalue_snap(a)
     v = CAST_VALUES[case["v"]]
-    vkind = {"bool": "b", "int": "i", "float": "f", "nan": "f", "str": "U", "intarr": "i", "floatarr": "f"}[case["v"]]
-    akind = ra.vals.dtype.kind
+    vkind = CAST_KIND[case["v"]]
+    akind = "i" if ra.vals.dtype.kind == "u" else ra.vals.dtype.kind
     perdim = R.resolve_all(ra, s["kinds"], case["ix"])[0]
     pos = perdim[0][1] if perdim[0][0] == "keep" else [perdim[0][1]]
     sp, cast = case["sp"], case["cast"]
@@ -336,7 +353,7 @@ def _check_cast(case):
         ret = call(f); target = a
     widening = cast or sp == "valset"
     same = (akind == vkind) or akind == "O" or (akind == "f" and vkind == "i")
-    if not widening and not same:
+    if not widening and (not same or not _fits(v, ra.vals.dtype)):
         return unspecified("cast-false-other-kind")   # NumPy's own coercion / error: property silent
     if isinstance(ret, Raised):
         return bad("assignment of {} {!r} into {} array (cast={}) raised {}".format(case["v"], v, akind, cast, ret), klass="unexpected-exception")
